@@ -234,6 +234,7 @@ def run_check(spec: CheckSpec, tier: str, seed: int, replay: str | None = None, 
             "samples": samples, "traces_validated_against_impl": evaluations,
             "boundary_classes": class_counts, "known_finding_hits": known_hits, "violation_signatures": {" + ".join(k): n for k, n in reported.items()},
             "theorems": spec.theorems, "correspondence_ops": spec.correspondence_ops, "leanchecker": (audit or {}).get("leanchecker"),
+            "generated_models": (audit or {}).get("generated"),
         },
         "assumptions": TRUSTED_BASE, "wall_s": round(time.time() - t0, 2), "violations": violations,
     }
